@@ -140,3 +140,19 @@ Proof.
       * split; [constructor|]. split; [intros H0; exfalso; apply H0; reflexivity|exact I].
   - split; vm_compute; reflexivity.
 Qed.
+
+(* ---- unconditional form for Accept-Charset and Accept-Encoding: EVERY accepted (LF-free) value is a rendering
+   of some element list under some decoration, and parse returns exactly those elements, left to right *)
+Require Import Webob.Proofs.C03_complete.
+
+Theorem C03_charset_every_accepted_value : forall w, no_LF w -> rmatch gen_accept_charset w = true ->
+  exists j0 els, all_junk j0 /\ els_ok token_ok els /\ w = render j0 els /\
+                 parse_accept_charset w = Some (map (fun ej => canon (fst ej)) els).
+Proof. exact charset_accepted_elements. Qed.
+Print Assumptions C03_charset_every_accepted_value.
+
+Theorem C03_encoding_every_accepted_value : forall w, no_LF w -> rmatch gen_accept_encoding w = true ->
+  exists j0 els, all_junk j0 /\ els_ok token_ok els /\ w = render j0 els /\
+                 parse_accept_encoding w = Some (map (fun ej => canon (fst ej)) els).
+Proof. exact encoding_accepted_elements. Qed.
+Print Assumptions C03_encoding_every_accepted_value.
